@@ -145,8 +145,22 @@ pub enum Goal {
     Resp { task: usize, resp: u16 },
 }
 
-/// Breadth-first search with parent pointers: shortest trace (initial state + ticks) to the goal.
+/// Shortest trace (initial state + ticks) to the goal by breadth-first search with parent
+/// pointers; if the breadth-first frontier outgrows the budget before the goal is reached (deep
+/// goals in systems with wide branching, e.g. an optimistic bound for an overloaded system), fall
+/// back to depth-first order, which reaches the goal as quickly as the exploration did — the trace
+/// is then valid but not shortest.
 pub fn find_trace<T: Sys>(sys: &T, goal: Goal, max_states: usize) -> Option<(T::S, Vec<Tick>)> {
+    find_trace_order(sys, goal, max_states.min(1_500_000), true)
+        .or_else(|| find_trace_order(sys, goal, max_states, false))
+}
+
+fn find_trace_order<T: Sys>(
+    sys: &T,
+    goal: Goal,
+    max_states: usize,
+    breadth_first: bool,
+) -> Option<(T::S, Vec<Tick>)> {
     let mut idx: HashMap<T::S, usize> = HashMap::new();
     let mut nodes: Vec<(T::S, usize, Option<Tick>)> = vec![];
     let mut q: VecDeque<usize> = VecDeque::new();
@@ -168,7 +182,7 @@ pub fn find_trace<T: Sys>(sys: &T, goal: Goal, max_states: usize) -> Option<(T::
         ticks.reverse();
         (nodes[at].0.clone(), ticks)
     };
-    while let Some(si) = q.pop_front() {
+    while let Some(si) = if breadth_first { q.pop_front() } else { q.pop_back() } {
         out.clear();
         let s = nodes[si].0.clone();
         sys.succ(&s, &mut out, &mut caps);
